@@ -698,7 +698,49 @@ func f2fbits(f float64, w int) uint64 {
 	return math.Float64bits(f)
 }
 
+// fpFinite reports whether t (an IEEE bit pattern) is certainly a finite number (no NaN, no infinity).
+func fpFinite(t *Term) bool {
+	switch t.op {
+	case OpConst:
+		f := fbits2f(t.val, int(t.w))
+		return !math.IsNaN(f) && !math.IsInf(f, 0)
+	case OpFFromS, OpFFromU:
+		return int(t.w) == 64 || int(t.a.w) <= 64 && int(t.w) == 32 // |int64| <= 2^64 < MaxFloat32
+	case OpFDiv:
+		// finite / constant with |c| >= 1 cannot overflow
+		if t.b.op == OpConst && fpFinite(t.a) {
+			c := math.Abs(fbits2f(t.b.val, int(t.b.w)))
+			return c >= 1 && !math.IsInf(c, 0)
+		}
+	case OpFCvt:
+		return int(t.w) >= int(t.a.w) && fpFinite(t.a)
+	case OpIte:
+		return fpFinite(t.b) && fpFinite(t.c)
+	}
+	return false
+}
+
 func mkFCmp(op Op, a, b *Term) *Term {
+	if op == OpFEq && a == b && fpFinite(a) {
+		return tTrue
+	}
+	if op == OpFLt || op == OpFLe {
+		// comparisons against the extreme finite values
+		if a.op == OpConst && fpFinite(b) {
+			if f := fbits2f(a.val, int(a.w)); f == math.MaxFloat64 || (a.w == 32 && f == math.MaxFloat32) {
+				if op == OpFLt {
+					return tFalse
+				}
+			}
+		}
+		if b.op == OpConst && fpFinite(a) {
+			if f := fbits2f(b.val, int(b.w)); f == -math.MaxFloat64 || (b.w == 32 && f == -math.MaxFloat32) {
+				if op == OpFLt {
+					return tFalse
+				}
+			}
+		}
+	}
 	if a.op == OpConst && b.op == OpConst {
 		x, y := fbits2f(a.val, int(a.w)), fbits2f(b.val, int(b.w))
 		switch op {
